@@ -278,7 +278,39 @@ func runC04(c *eng.Ctx) {
 				_, isLookup := ex.Tuple.(*ssa.Lookup)
 				return isLookup
 			})
-			c.Guard("ORDER-commit", "newest-entry-wins", fn, eng.Entry(fn), mu, eng.PassEdges(fn, notFound), "walking the index backwards, an entry is recorded only for keys not seen yet (the newest change of a key wins)")
+			// the newest change of a key wins: walking from the newest entry to the oldest an entry is recorded only
+			// for keys not seen yet; walking from the oldest to the newest every entry overwrites
+			guarded := true
+			for _, m := range mu {
+				if hit, _ := eng.Search(eng.Entry(fn), eng.Is(m), eng.SearchOpt{Cut: eng.PassEdges(fn, notFound)}); hit != nil {
+					guarded = false
+				}
+			}
+			backwards, forwards := false, false
+			for _, rd := range eng.Find(fn, eng.PlainCallTo("weed/storage.readIndexEntryAtOffset")) {
+				if len(eng.CycleOf(rd.Block())) == 0 {
+					continue
+				}
+				if phi, ok := eng.Arg(rd.(*ssa.Call), 1).(*ssa.Phi); ok {
+					for i, ev := range phi.Edges {
+						if !phi.Block().Dominates(phi.Block().Preds[i]) {
+							continue
+						}
+						if step, isB := ev.(*ssa.BinOp); isB && step.X == ssa.Value(phi) {
+							backwards = backwards || step.Op == token.SUB
+							forwards = forwards || step.Op == token.ADD
+						}
+					}
+				}
+			}
+			okNewest := (backwards && !forwards && guarded) || (forwards && !backwards && !guarded && len(eng.PassEdges(fn, notFound)) == 0)
+			dir := "an undetermined direction"
+			if backwards && !forwards {
+				dir = "newest to oldest"
+			} else if forwards && !backwards {
+				dir = "oldest to newest"
+			}
+			c.Ob("ORDER-commit", eng.FuncName(fn)+" newest-entry-wins", okNewest, fn.Pos(), fmt.Sprintf("the newest change of a key made during the compaction wins (walk: %s; recorded only for unseen keys: %v)", dir, guarded))
 		}
 
 		// ---------------- (4) literal bounds on the index entry
